@@ -545,6 +545,20 @@ theorem underlyingAlgo_cert_examples :
     underlyingAlgo "ssh-ed25519" = "ssh-ed25519" ∧ underlyingAlgo "rsa-sha2-256" = "rsa-sha2-256" := by
   decide
 
+/-- **every exchange is checked**: a connection that survived n key exchanges had, in each of them, a host key
+    signature that verified over that exchange's hash and a host key the callback accepted -/
+theorem sessionAccepts_all (xs : List (Bool × Bool)) (h : sessionAccepts xs = true) :
+    ∀ x ∈ xs, x.1 = true ∧ x.2 = true := by
+  intro x hx
+  have := List.all_eq_true.mp h x hx
+  simpa using this
+
+theorem sessionAccepts_rekey_bad_signature (first : Bool × Bool) (cb : Bool) :
+    sessionAccepts [first, (false, cb)] = false := by
+  simp [sessionAccepts]
+
+example : sessionAccepts [(true, true), (true, true)] = true ∧ sessionAccepts [(true, true), (true, false)] = false := by decide
+
 /-! ## group exchange, client side -/
 
 theorem bitLen_ge (n k : Nat) (hk : 0 < k) : k ≤ bitLen n ↔ 2 ^ (k - 1) ≤ n := by
